@@ -73,7 +73,9 @@ def run_case(case):
         em = error_model.InsErrorModel(wa)
         n = em.n_states
         To = em.transform_to_output(pva)
+        To_at_call = To.copy()
         Ti = em.transform_to_internal(pva)
+        Ti_at_call = Ti.copy()
         if To.shape != (9, n) or Ti.shape != (n, 9):
             v('c05-shapes', 'transform shapes %s %s for n_states=%d' % (To.shape, Ti.shape, n))
             continue
@@ -201,6 +203,10 @@ def run_case(case):
                 v('c05-perturb-correct-first-order:%s' % ('3d' if wa else '2d'),
                   'perturb_pva then correct_pva leaves a first-order residual %.2e (direction %s, '
                   'with_altitude=%s)' % (res[-1], d.tolist(), wa))
+        # matrices handed out at the beginning must still be what they were (many calls on other states later)
+        if (To != To_at_call).any() or (Ti != Ti_at_call).any():
+            v('c05-returned-matrix-changed-later', 'a matrix returned by transform_to_output / transform_to_internal changed '
+              'when the functions were called again for other states (with_altitude=%s)' % wa)
     first = {}
     for x in viol:
         first.setdefault(x['sig'], x)
